@@ -134,6 +134,29 @@ def impl_reasm(resps):
         bleclient.char_write = orig
 
 
+def check_reasm(ctx, resps, out, case):
+    """implementation-level oracle, independent of the model: replies that each carry exactly one fragment item
+    (FragmentData ... FragmentData, FragmentLast; a fragment may be empty) must be reassembled into the decoding of
+    the concatenated fragments, using every reply exactly once"""
+    if out.startswith("exc"):
+        ctx.violation("reasm/" + out.split()[1], f"_pairing_char_write raised {out.split()[1]}", case)
+        return
+    parts = []
+    for i, r in enumerate(resps):
+        d = ref_read(r)
+        if d is None or len(d) != 1 or d[0][0] != (13 if i == len(resps) - 1 else 12):
+            return  # not a plain fragment sequence: the correspondence with the model judges it
+        parts.append(bytes(d[0][1]))
+    if not resps or len(resps) > 50:
+        return
+    whole = ref_read(b"".join(parts))
+    if whole is None:
+        return
+    want = "done " + (",".join(f"{k}:{hx(v)}" for k, v in sorted({t: bytes(v) for t, v in whole}.items())) or "-") + f" {len(resps)}"
+    if out != want:
+        ctx.violation("reasm/wrong-result", f"{len(resps)} fragment replies of sizes {[len(x) for x in parts][:8]} carrying a {len(b''.join(parts))}-byte TLV: got '{out[:120]}', the reassembled items are '{want[:120]}'", case)
+
+
 def canon_reasm(s):
     # the model prints the item list; the implementation returns dict(items): last occurrence wins, sort by key
     p = s.split(" ")
@@ -252,6 +275,11 @@ def gen_reasm(ctx: Ctx):
         cuts = sorted(rng.randrange(0, len(payload) + 1) for _ in range(npieces - 1))
         pts = [0] + cuts + [len(payload)]
         pieces = [payload[a:b] for a, b in zip(pts, pts[1:])]
+        if mode == 5 and rng.random() < 0.5:
+            k = rng.choice([1, 7, 137, 255])
+            pieces = [payload[i:i + k] for i in range(0, len(payload), k)][:49] + [b""]
+            if b"".join(pieces) != payload:
+                pieces = [payload, b""]
         resps = [ref_write([(12, p)]) for p in pieces[:-1]] + [ref_write([(13, pieces[-1])])]
         if mode == 2:
             resps = resps[:-1]  # never finishes: starved / too many
@@ -334,9 +362,7 @@ def run(ctx: Ctx, driver: Driver):
         out = impl_reasm(resps)
         ctx.evaluations += 1
         case = {"stream": "reasm", "responses": [hx(r) for r in resps]}
-        if out.startswith("exc"):
-            ctx.violation("reasm/" + out.split()[1], f"_pairing_char_write raised {out.split()[1]}", case)
-        # oracle: a correctly fragmented reply decodes to the payload's decoding
+        check_reasm(ctx, resps, out, case)
         cases.append(case)
         outs.append(out)
         lines.append("tlv.reasm " + " ".join(hx(r) for r in resps))
@@ -363,8 +389,7 @@ def run_case(ctx, driver, c, record=False):
     else:
         resps = [bytes.fromhex(r) if r != "-" else b"" for r in c["responses"]]
         out = impl_reasm(resps)
-        if out.startswith("exc"):
-            ctx.violation("reasm/" + out.split()[1], "raised", c)
+        check_reasm(ctx, resps, out, c)
         compare_with_model(ctx, "reasm", [c], [out], ["tlv.reasm " + " ".join(hx(r) for r in resps)], driver, canon=canon_reasm)
     if len(ctx.violations) > before:
         return ctx.violations[-1]["what"]
@@ -386,5 +411,9 @@ def search(ctx: Ctx, driver: Driver, broken):
             return
     for bs, expected in gen_byte_strings(ctx):
         check_dec(ctx, bs, expected, impl_dec(bs, expected))
+        if ctx.violations:
+            return
+    for resps in gen_reasm(ctx):
+        check_reasm(ctx, resps, impl_reasm(resps), {"stream": "reasm", "responses": [hx(r) for r in resps]})
         if ctx.violations:
             return
